@@ -136,7 +136,9 @@ class C16(runner.Check):
 				"final_newline": r.chance(0.7), "header": r.chance(0.8),
 				"nsites": r.chance(0.6), "indent": r.choice(["", "", " ", "  "]),
 				"blank_after_last": r.choice([None, None, 0]),
-				"blank_after_motif_line": r.choice([0, 1, 1, 2])}
+				"blank_after_motif_line": r.choice([0, 1, 1, 2]),
+				"numfmt": r.wchoice(["repr", "e", "f6", "int"], [5, 1, 1, 1]),
+				"sep": r.choice([" ", " ", "  ", "\t"])}
 			f = S("faults")
 			io_plan = {"short_reads": f.chance(0.7), "max_read": f.choice([1, 3, 16, 64]),
 				"seed": f.subseed(), "buffer": f.choice([8192, 16, 64])}
@@ -251,7 +253,7 @@ class C16(runner.Check):
 				"dict"]), "insig": b.choice(["bigwig", "dict"]), "loci": [b.choice(["bed",
 				"df"]) for _ in sets], "fasta_width": b.choice([7, 50, 60, 10000]),
 				"extra_cols": b.chance(0.4), "chroms_as": b.choice(["list", "tuple"]),
-				"verbose": b.chance(0.15), "bed_crlf": b.chance(0.2),
+				"verbose": b.chance(0.15), "bed_crlf": b.chance(0.2), "fa_desc": b.chance(0.3),
 				"bed_trailing_blank": b.chance(0.2)})
 		return {"leg": "loci", "seed": seed, "chroms": chroms, "signals": signals,
 			"in_signals": in_signals, "sets": sets, "kw": kw, "combos": combos,
@@ -415,8 +417,10 @@ class C16(runner.Check):
 						and not case["layout"]["url"]),
 					ends_after_matrix=bool(eof_after_matrix)))
 			else:
+				nf = case["layout"].get("numfmt", "repr")
 				for (k, v), m in zip(got, expected):
-					want = numpy.array(m["pwm"], dtype="float64")
+					want = numpy.array([[float(genome.fmtnum(x, nf)) for x in row]
+						for row in m["pwm"]], dtype="float64")
 					a = v.numpy()
 					if a.shape != want.shape or str(a.dtype) != "float64" or \
 							a.tobytes() != want.tobytes():
@@ -448,7 +452,9 @@ class C16(runner.Check):
 						"file gives a different result; %s" % desc, key=dict(key_base,
 						kind="reread"))
 				elif [k.strip() for k in res2] != [n for n, _ in other] or any(
-						res2[k].numpy().tobytes() != numpy.array(M, dtype="float64").tobytes()
+						res2[k].numpy().tobytes() != numpy.array([[float(genome.fmtnum(x,
+						case["layout"].get("numfmt", "repr"))) for x in row] for row in M],
+						dtype="float64").tobytes()
 						for k, (n, M) in zip(res2, other)):
 					out.violate("values_differ", "a second file read in the same process is "
 						"not returned exactly; %s" % desc, key=dict(key_base, kind="second"))
@@ -524,7 +530,7 @@ class C16(runner.Check):
 		if combo["seq"] == "fasta":
 			p = os.path.join(scratch, tag + ".fa")
 			genome.write_fasta(p, [(c["name"], c["seq"]) for c in chroms],
-				width=combo["fasta_width"])
+				width=combo["fasta_width"], descriptions=bool(combo.get("fa_desc")))
 			paths += [p, p + ".fai"]
 			sequences = p
 		else:
